@@ -18,7 +18,10 @@ ID = 'C03'
 LEVEL = 'exploration'
 RULE = ('Hypothesis: FileSpec (1-5 dims of length 1-5, 1-5 numeric variables '
         'f4/f8/i2/i4 of rank 0-4 over differing dimension subsets, masked and '
-        'unmasked, 1-D coordinate variables) x non-empty subset of '
+        'unmasked, 1-D coordinate variables; a quarter of the in-memory '
+        'applyAlongDimensions cases add a variable carrying a named '
+        'dimension twice, K(x,x) / K(t,x,x), judged along both axes) x '
+        'non-empty subset of '
         'dimensions in permuted keyword order x function per dimension: named '
         'reducer mean/sum/min/max/std/var/prod, or callable np.convolve('
         'valid/same/full, random kernel of 1-3 taps), np.diff (n>=2), x[::k], '
@@ -224,6 +227,25 @@ def cases(draw, tier='quick'):
         return dict(file=fs, form='plain', entry='convolve_dim', disk=disk,
                     funcs=[[d, fd]])
     disk = form == 'plain' and pick in (3, 4) and A.disk_ok(fs)
+    if not disk and draw(st.integers(0, 3)) == 0:
+        # a variable that carries a named dimension TWICE (covariance
+        # K(x, x), K(t, x, x)): the function applies along both axes
+        x = draw(st.sampled_from([d_ for d_, fd_ in fl]))
+        vd = [x, x]
+        others = [n for n in names if n != x]
+        if others and draw(st.booleans()):
+            vd.insert(draw(st.integers(0, 2)), draw(st.sampled_from(others)))
+        size = int(np.prod([dlen[n] for n in vd]))
+        code = draw(st.sampled_from(['f4', 'f8', 'i4']))
+        data = draw(st.lists(S._elements(code, FOPTS), min_size=size,
+                             max_size=size))
+        mask = fill = None
+        if draw(st.integers(0, 2)) == 0:
+            mask = [int(b_) for b_ in draw(st.lists(
+                st.booleans(), min_size=size, max_size=size))]
+            fill = -999
+        fs['vars'].append(dict(name='kxx', dims=vd, dtype=code, data=data,
+                               mask=mask, fill=fill, attrs={}))
     return dict(file=fs, funcs=fl, form=form, disk=disk)
 
 
@@ -794,6 +816,8 @@ def _check_case(case):
         touched_any = True
         if len(axes) >= 2:
             r.label('var-multi-axis')
+        if len(set(mv.dims)) < len(mv.dims):
+            r.label('var-repeated-named-dim')
         if mv.masked:
             r.label('masked-touched')
             if any(0 < i < len(mv.dims) - 1 for i in axes):
